@@ -4,7 +4,7 @@
    The two modes run the same graph (checked per definition: the captured graphs are equal) and
    differ only in find_boundary. *)
 From Coq Require Import List NArith.
-From LogosV Require Import Base.Utf8 Engine.Model Engine.Cert Engine.CertProofs Engine.Utf8Lex.
+From LogosV Require Import Base.Utf8 Engine.Model Engine.Cert Engine.CertProofs Engine.Run Engine.Utf8Lex Engine.Utf8Stream.
 Import ListNotations.
 Local Open Scope N_scope.
 
@@ -26,3 +26,17 @@ Theorem C12_inside_char_error : forall d g V R D P,
   forall fuel, next_from (attempt_ref g) act (fun i => i) w false (S fuel) start
                = ([], Yield (Item false None start (start + 1)) (start + 1)).
 Proof. exact inside_char_error. Qed.
+
+(* Stream level: the whole lexing of the same text in the two modes.  With every default error item cut
+   into its bytes (split_errs), the two streams - skipped matches, Ok items, callback errors, error
+   bytes, in order - are equal: the same Ok tokens with the same spans and the same bytes covered by
+   errors.  (No assumption on w beyond being bytes: on text that is not valid UTF-8 the statement
+   compares the byte lexer with a lexer that rounds error ends past continuation bytes.) *)
+Theorem C12_streams_agree : forall d g V R D P,
+  dfa_ok d = true -> sim_ok d g V D = true -> exact_ok d g V R D = true ->
+  utf8_ok d P = true -> utf8_strict_ok d P D = true ->
+  forall act (w : list byte), bytes_ok w ->
+  (forall l s e, s < e -> e <= N.of_nat (length w) -> e + snd (act l s e) <= N.of_nat (length w)) ->
+  split_errs (fst (lex_all (attempt_ref g) act (fb_str w) w false))
+  = split_errs (fst (lex_all (attempt_ref g) act (fun i => i) w false)).
+Proof. exact str_bytes_streams_agree. Qed.
